@@ -1351,6 +1351,30 @@ impl<'a> Gen<'a> {
                 let (s, _) = self.value_stm(&Ty::Any, depth.min(2));
                 s
             }
+            6 if self.p.type_tests && self.pct(12) => {
+                // a while-set / if-set whose test can never succeed: the tested expression is still evaluated once
+                let (st, tt) = self.rng.pick(&[(Ty::Int, Ty::Str), (Ty::Str, Ty::Int), (Ty::Bool, Ty::Float), (Ty::Int, Ty::arr(Ty::Int)), (Ty::Float, Ty::Int), (Ty::Str, Ty::Bool)]).clone();
+                let (e, et) = self.expr(&st, d.min(1));
+                let e = if et == st { e } else { Self::plain_literal(&st).unwrap_or(E::Int(1)) };
+                let id = self.fresh_tick();
+                let e = match scalar_kind(&st) {
+                    Some(k) => E::Tick(id, k, Box::new(e)),
+                    None => e,
+                };
+                let v = self.name();
+                self.push();
+                self.declare(&v, tt.clone());
+                self.in_loop += 1;
+                let body = self.block(1, d.min(1));
+                self.in_loop -= 1;
+                self.pop();
+                self.tag("stm:while-set-never-matching");
+                if self.rng.chance(1, 2) {
+                    S::WhileSet(v, tt, e, Box::new(S::Block(body)))
+                } else {
+                    S::IfSet(v, tt, e, Box::new(S::Block(body)), None)
+                }
+            }
             6 if self.p.type_tests && self.pct(30) => {
                 // while-set over a union-typed cell that the body turns into a string: the loop is emitted bare (no
                 // wrapping block), its cell is declared beside it in the same statement list
